@@ -135,6 +135,12 @@ impl GseDecapMemory for SimpleGseMemory {
     fn take_frag(&mut self, frag_id: u8) -> Result<MemoryContext, DecapMemoryError> {
         let idx = frag_id as usize % self.max_frag_id;
 
+        // the slot may be used by another fragment id: leave it untouched in that case
+        match &self.frags[idx] {
+            Some((context, _)) if context.frag_id == frag_id => (),
+            _ => return Err(DecapMemoryError::UndefinedId),
+        }
+
         let mut frag: Option<MemoryContext> = None;
         mem::swap(&mut self.frags[idx], &mut frag);
 
